@@ -807,3 +807,50 @@ def plant_failing_share(doc, rng, fail, share):
     else:
         raise ValueError(share)
     return ia, ib
+
+
+# ---- encrypted sources with a stream that cannot be decrypted (Resolve::stream_data fails) ---------------------------
+
+UNREADABLE_KINDS = ["smask", "entry", "image", "smask-form-nested"]
+
+
+def plant_unreadable(doc, rng, kind):
+    """a stream the selected page reaches -> (page index, object number of the stream to damage)"""
+    doc.features.add("unreadable:" + kind)
+    pi = rng.randrange(len(doc.pages))
+    page = doc.objs[doc.pages[pi]]
+    form = lambda res=None: doc.add(Stream(dict({"Type": Name("XObject"), "Subtype": Name("Form"), "FormType": 1, "BBox": [0, 0, 1, 1]},
+                                                **({"Resources": res} if res else {})), b"0 0 1 1 re f"))
+    mask = lambda g: {"Type": Name("ExtGState"), "SMask": {"Type": Name("Mask"), "S": Name("Luminosity"), "G": g}}
+    if kind == "smask":
+        x = form()
+        add_resource(doc, page, "ExtGState", "GSU", mask(x), b"/GSU gs 0 0 3 3 re f")
+    elif kind == "smask-form-nested":
+        x = form()
+        add_resource(doc, page, "ExtGState", "GSU", doc.add(mask(form({"XObject": {"In": x}}))), b"/GSU gs 0 0 3 3 re f")
+    elif kind == "entry":
+        x = doc.add(Stream({"Kind": Name("Private")}, b"private data"))
+        page["PieceInfo"] = {"App": {"LastModified": b"D:20200101", "Private": x}}
+    elif kind == "image":
+        x = doc.add(Stream(_image_dict(2, 2, Name("DeviceRGB")), rnd_bytes(rng, 12)))
+        add_resource(doc, page, "XObject", "XU", x, b"q /XU Do Q")
+    else:
+        raise ValueError(kind)
+    return pi, x.num
+
+
+def write_encrypted(doc, rng, damaged, nbytes):
+    """the document under the standard security handler (AESV2, empty user password), classic table; the encrypted data of
+    stream `damaged` cut to `nbytes` bytes (not a whole number of cipher blocks after the IV: it cannot be decrypted)"""
+    from oracle import security as S
+    doc.features.add("file:encrypted")
+    h = S.Handler(4, "AESV2", 16, b"", b"owner", -4, b"0123456789abcdef")
+    ivs = iter(lambda: rnd_bytes(rng, 16), None)
+    enc = S.protect(dict(doc.objs), h, ivs)
+    if nbytes is not None:
+        st = enc[damaged]
+        enc[damaged] = Stream(st.d, (st.data + rnd_bytes(rng, 32))[:nbytes])
+    entries = {n: Obj(v) for n, v in enc.items()}
+    entries[doc.n + 1] = Obj(h.encrypt_dict())
+    tr = {"Root": Ref(doc.root), "ID": [h.id0, h.id0], "Encrypt": Ref(doc.n + 1)}
+    return write_file([Revision(entries, fmt="table", trailer=tr)])[0]
